@@ -62,12 +62,12 @@ func c03Siblings(r *an.Run) {
 	r.Min("special-cased types", 8)
 	// corresponding arms
 	pairs := map[string][2]string{
-		"*go/ast.Ident":    {"compileIdent", "compileIdent"},
-		"[]go/ast.Stmt":    {"compileSliceDots", "compileSliceDots"},
-		"[]go/ast.Expr":    {"compileSliceDots", "compileSliceDots"},
-		"[]*go/ast.Field":  {"compileSliceDots", "compileSliceDots"},
-		"*go/ast.ForStmt":  {"compileForStmt", "compileForStmt"},
-		"go/token.Pos":     {"compilePosMatcher", "compilePosReplacer"},
+		"*go/ast.Ident":   {"compileIdent", "compileIdent"},
+		"[]go/ast.Stmt":   {"compileSliceDots", "compileSliceDots"},
+		"[]go/ast.Expr":   {"compileSliceDots", "compileSliceDots"},
+		"[]*go/ast.Field": {"compileSliceDots", "compileSliceDots"},
+		"*go/ast.ForStmt": {"compileForStmt", "compileForStmt"},
+		"go/token.Pos":    {"compilePosMatcher", "compilePosReplacer"},
 	}
 	for typ, p := range pairs {
 		r.Check(strings.HasSuffix(mc[typ], "."+p[0]) && strings.HasSuffix(rc[typ], "."+p[1]), "compile|arm|"+typ, rf.Pos(), "%s is handled by %s / %s on the two sides (got %q / %q)", typ, p[0], p[1], mc[typ], rc[typ])
@@ -240,46 +240,8 @@ func c03EveryFieldReproduced(r *an.Run) {
 	r.Rule("R3-every-field-and-element-reproduced")
 	n := 0
 	// compile side
-	compileLoop := func(name, accessor string, bound func(ssa.Value) bool) {
-		f := fn(r, engine, name)
-		if f == nil {
-			return
-		}
-		ils := findIndexLoops(f, bound)
-		if !r.Check(len(ils) == 1, short(f)+"|loop", f.Pos(), "%s has one index loop over the pattern value (found %d)", short(f), len(ils)) {
-			return
-		}
-		il := ils[0]
-		var act *ssa.Call
-		for _, c := range callsInLoop(il.Loop) {
-			call, ok := c.(*ssa.Call)
-			if !ok || an.StaticCallee(call) == nil || !strings.HasSuffix(an.StaticCallee(call).Name(), "compile") || len(call.Call.Args) < 2 {
-				continue
-			}
-			if ac, ok := call.Call.Args[1].(*ssa.Call); ok && an.IsCallTo(ac, accessor) && isParam(ac.Call.Args[0], "v") && ac.Call.Args[1] == il.Index {
-				act = call
-			}
-		}
-		if !r.Check(act != nil, short(f)+"|compile-elem", il.If.Pos(), "the loop compiles %s(v, i) with its own index", accessor) {
-			return
-		}
-		stored := false
-		for _, u := range *act.Referrers() {
-			if st, ok := u.(*ssa.Store); ok {
-				if ia, ok := st.Addr.(*ssa.IndexAddr); ok && ia.Index == il.Index {
-					stored = true
-				}
-			}
-		}
-		msg := il.CoversAll(act, nil)
-		r.Check(stored && msg == "" && il.Start == 0 && il.Step == 1, short(f)+"|covers-all", act.Pos(), "replacers for all elements 0..n-1 are compiled and stored at their own index %s", msg)
-		n++
-	}
-	compileLoop("replacerCompiler.compileStruct", rvField, func(v ssa.Value) bool {
-		c, ok := v.(*ssa.Call)
-		return ok && c.Call.IsInvoke() && c.Call.Method.Name() == "NumField"
-	})
-	compileLoop("replacerCompiler.compileSlice", rvIndex, isCallOnParam(rvLen, "v"))
+	n += compileLoopCovers(r, engine, "replacerCompiler.compileStruct", rvField, "NumField(Type(v))", "replacer")
+	n += compileLoopCovers(r, engine, "replacerCompiler.compileSlice", rvIndex, "Len(v)", "replacer")
 	// replace side
 	replaceLoop := func(name, items, dstAccessor string) {
 		f := fn(r, engine, name)
